@@ -403,6 +403,25 @@ class Eval:
             if isinstance(v, Vec):
                 clo = self.ev(args[1], env)
                 return Vec([Thunk2((lambda it: (lambda: self.apply(clo, [it])))(it)) for it in v.items])
+        if cal == "core::iter::traits::iterator::Iterator::filter" and len(args) == 2:
+            v = self.force(self.ev(args[0], env))
+            if isinstance(v, Vec):
+                clo = self.ev(args[1], env)
+                out = []
+                for it in v.items:
+                    r = self.force(self.apply(clo, [it]))
+                    if not isinstance(r, Bool):
+                        raise Unclassified("filter predicate is not Boolean")
+                    if r.b:
+                        out.append(it)
+                return Vec(out)
+            return Unknown("filter")
+        if cal in ("core::iter::traits::iterator::Iterator::skip", "core::iter::traits::iterator::Iterator::take") and len(args) == 2:
+            v = self.force(self.ev(args[0], env))
+            k_ = F.lit_value(args[1])
+            if isinstance(v, Vec) and isinstance(k_, int) and not isinstance(k_, bool):
+                return Vec(v.items[k_:] if cal.endswith("skip") else v.items[:k_])
+            return Unknown(cal.rsplit("::", 1)[-1])
         if cal == "core::ops::bit::Not::not" and len(args) == 1:
             return Bool(not self.truth(args[0], env))
         if cal in ("core::ops::bit::BitOr::bitor", "core::ops::bit::BitAnd::bitand") and len(args) == 2:
